@@ -41,6 +41,8 @@ class T(Base):
     dd = sa.Column(sa.Date)
     m = sa.Column(sa.Numeric(5, 2))
     iv = sa.Column(sa.Interval)
+    # a text column whose TYPE declares a collation (C08 only: no row carries a value)
+    sc = sa.Column(sa.String(collation="NOCASE"))
     # a column whose name is not an attribute of the entity (unknown to the ORM, known to Core)
     hidden_ = sa.Column("hidden_col", sa.Integer)
 
